@@ -410,7 +410,13 @@ static int32_t rtosc_convert_to_range(const rtosc_arg_val_t* const arg,
             next = skipped + incsize(arg+skipped);
 
             if(has_delta)
+            {
                 rtosc_arg_val_add(arg+skipped, &delta, &added);
+                // overflow? then this is not a counting range
+                if(rtosc_arg_vals_cmp_single(&added, arg+skipped, NULL) !=
+                   rtosc_arg_vals_cmp_single(arg+1, arg, NULL))
+                    break;
+            }
 
             if(next >= size || !rtosc_arg_vals_eq_single(has_delta ? &added
                                                                    : arg,
